@@ -82,7 +82,8 @@ def impl(case):
             iso8583.loads(iso8583.dumps({'MTI': '1240', 'PDS0001': 'a' * 600, 'PDS0002': 'b' * 600, 'PDS0003': 'c' * 600}, iso_config=other), iso_config=other)
         except Exception:
             pass
-    res = {'pack': outcome(lambda: iso8583._pds_to_de(dict(m)), lambda l: ','.join(hs(x).replace('-', '_') for x in l) or '-'),
+    # (the packing helper is private: compared when it exists under this name, otherwise the encoded message alone speaks)
+    res = {'pack': outcome(lambda: iso8583._pds_to_de(dict(m)), lambda l: ','.join(hs(x).replace('-', '_') for x in l) or '-') if hasattr(iso8583, '_pds_to_de') else 'ABSENT',
            'dumps': outcome(lambda: iso8583.dumps(dict(m)), hb)}
     if res['dumps'].startswith('OK '):
         b = bytes.fromhex(res['dumps'][3:])
@@ -134,7 +135,7 @@ def judge(case, io_, mo):
             if {k: v for k, v in got.items() if k.startswith('PDS')} != want:
                 ps.append({'kind': 'oracle', 'sig': 'pds-entries-not-recovered', 'msg': 'PDS entries after decoding differ from the set encoded'})
     if mo is not None and not ps:
-        if mo[0] != io_['pack']:
+        if io_['pack'] != 'ABSENT' and mo[0] != io_['pack']:
             ps.append({'kind': 'corr', 'sig': 'pds_to_de', 'msg': '_pds_to_de differs from model: %s vs %s' % (io_['pack'][:80], mo[0][:80])})
         elif mo[1] != d:
             ps.append({'kind': 'corr', 'sig': 'dumps', 'msg': 'dumps differs from model'})
